@@ -1427,11 +1427,6 @@ fn curves(_k: &Kept, e: &mut BTreeMap<String, Entry>) {
     let mut lo = f64::NEG_INFINITY;
     let mut hi = f64::INFINITY;
     let mut used = 0;
-    if std::env::var("RMH_CONSTS_DEBUG").is_ok() {
-        for r in [0.01f32, 0.05, 0.1, 0.2, 0.3, 0.35, 0.5, 0.8, 1.0, 2.0, 10.0] {
-            eprintln!("arc r={r} n={:?} raw={:?}", arc_n(r), curve_of(GameMode::Osu, PathType::PERFECT_CURVE, &[(0.0, 0.0), (r, r), (2.0 * r, 0.0)]).map(|p| p.len()));
-        }
-    }
     for m in 2usize..=6 {
         if let Some((ra, rb)) = bisect_f32(0.001, 1000.0, |r| arc_n(r).map_or(false, |n| n > m)) {
             if arc_n(ra) == Some(m) && arc_n(rb) == Some(m + 1) {
